@@ -20,6 +20,7 @@ CONSTANTS
   GraftNeedsStream = FALSE
   ApiSkipsIfPresent = FALSE
   DrainAfterClose = FALSE
+  PurgeNeedsRtPeer = FALSE
 CONSTRAINT OneFlying
 VIEW GView
 INVARIANT Emit
